@@ -118,3 +118,41 @@ package interp
 //@   ensures constant-operand-representable-in-a-constant-type: err == nil && old(isC(n.rval)) && isConstType(typ) ==> representableConst(old(cOf(n.rval)), typ.TypeOf()) || (isInt(old(n.typ).TypeOf()) && isString(typ.TypeOf()))
 //@   ensures other-operands-convertible: err == nil && !(old(isC(n.rval)) && isConstType(typ)) ==> old(n.typ).convertibleTo(typ)
 //@   canary err == nil ==> old(n.typ).convertibleTo(typ)
+
+// assignment (typecheck.go): a value is accepted for a destination of type typ only if — after an untyped
+// constant has taken its type, with the representability check of convertUntyped — its type is assignable
+// to typ; a value without type, and untyped nil where no type can be inferred, are rejected.
+//@ func (check typecheck) assignment(n, typ, context) (err)
+//@   props C12
+//@   opt safety = off
+//@   opt opaque-calls = *
+//@   opt opaque-havoc = none
+//@   requires [assume] n != nil
+//@   ensures untyped-value-is-rejected: old(n.typ) == nil ==> err != nil
+//@   ensures accepted-only-if-assignable: err == nil && typ != nil && typ.str != "*unsafe2.dummy" ==> n.typ.assignableTo(typ)
+//@   ensures constant-representable-in-a-basic-destination: err == nil && old(n.typ != nil && n.typ.untyped && n.typ.cat != nilT && isC(n.rval)) && typ != nil && !isInterface(typ) && !typ.untyped && basicTarget(typ) ==> representableConst(old(cOf(n.rval)), typ.TypeOf())
+//@   canary err == nil
+
+// x.(T): the operand must be of interface type.  a[i]: the index is of integer type (an untyped constant
+// is converted to int) and a constant index lies within [0, max) when the length is known.
+//@ func (check typecheck) typeAssertionExpr(n, typ) (err)
+//@   props C12
+//@   opt safety = off
+//@   opt loops = havoc
+//@   opt opaque-calls = *
+//@   opt opaque-havoc = none
+//@   requires [assume] n != nil && n.typ != nil
+//@   ensures operand-is-an-interface: err == nil ==> n.typ.TypeOf().Kind() == reflect.Interface || n.typ.TypeOf() == valueInterfaceType
+//@   canary err == nil
+
+//@ func (check typecheck) index(n, max) (err)
+//@   props C12
+//@   ints math
+//@   opt safety = off
+//@   opt opaque-calls = *
+//@   opt opaque-havoc = none
+//@   requires [assume] n != nil
+//@   ensures index-is-an-integer: err == nil ==> isInt(n.typ.TypeOf())
+//@   ensures constant-index-below-the-length: err == nil && n.rval.IsValid() && max >= 1 ==> vInt(n.rval) < max
+//@   ensures constant-index-not-negative: err == nil && n.rval.IsValid() ==> vInt(n.rval) >= 0
+//@   canary err == nil
